@@ -14,7 +14,7 @@ def run(tier, replay=None):
         return transport.replay(v, replay)
     v.assumptions = [
         "datagram classes {valid, badlen, badserial, serial0, badcode, badproto, proto19, malformed, silence} are concretised by the farm from the seed (lengths {0,1,63,65,128,1024} from the seed, and every length of {0,1,2,7,8,9,32,63,65,66,127,128,129,1023,1024,2047,2048,2049,4096} once per path in hand-made scripts, corrupted serial byte, other function code, protocol id {0x18,0x00,0xff,0x16}, non-decimal BCD nibble / boolean byte 2..255)",
-        "Rig L: one tick = 40 ms (120 ms when a scenario is re-run), T = 3 ticks; scripted instants sit 0.22 / 0.45 tick inside a tick; a rejected scenario is reported only if it is rejected again in at least one of three isolated re-runs",
+        "Rig L: one tick = 40 ms (120 ms when a scenario is re-run), T = 3 ticks; scripted instants sit 0.22 / 0.45 tick inside a tick; a rejected scenario is reported only if it is rejected again in at least two undisturbed isolated re-runs (and in more of them than it is accepted in)",
         "every call of a scenario on a shared fixed port has its own controller serial (a reply abandoned by a timed-out call could otherwise legitimately be taken by the next call - see DESIGN 4/C08 scope)",
     ]
     common.model_checks(v, [
